@@ -6,15 +6,16 @@
    Part D  one precedence-climbing parser, instantiated with the Lua table and the Nelua ladder.
    (Part C, evaluation order, lives in Order.v.)
    No proofs here. *)
-From C01 Require Export Ops Gen Helpers.
+From C01 Require Export Ops Gen Helpers VarDecl.
 Local Open Scope Z_scope.
 
 (* ------------------------------------------------------------------ *)
 (* Part A: numbers                                                     *)
 (* ------------------------------------------------------------------ *)
 
-(* the dialect the emitted C is compiled in: -fwrapv comes from cdefs.lua's cflags_base *)
-Definition base_mode : cmode := mk_mode gcc_base_has_fwrapv false.
+(* the dialect the emitted C is compiled in by BOTH supported compilers: -fwrapv comes from cdefs.lua's
+   cflags_base of gcc and of clang *)
+Definition base_mode : cmode := mk_mode (gcc_base_has_fwrapv && clang_base_has_fwrapv) false.
 
 (* run-time operands: not compile-time constants, signed => is_maybe_negative; checks on *)
 Definition rt_add := op_add base_mode I64.
